@@ -81,6 +81,13 @@ func init() {
 			return srResult(gmsl.ResolveConflicts(gmsl.RoomVersion(ver), c.list(a[2]), c.list(a[3]), srUserIDForSender, srRejectedFn(a[4])))
 		})
 	}))
+	// [ver; universe; sets; auth; rejected; ejson; base sets; base auth; evjson]
+	RegisterImpl("C11.resolve_perm_e2e", wrap(func(ver string, c *srCase, a [][]byte) []byte {
+		a[5] = srEJSON(c.evs)
+		return srRepeat(2, func() []byte {
+			return srResult(gmsl.ResolveConflictsNew(gmsl.RoomVersion(ver), c.sets(a[2]), c.list(a[3]), srUserIDForSender, srRejectedFn(a[4])))
+		})
+	}))
 	RegisterProp("C11", propC11)
 }
 
@@ -175,6 +182,11 @@ func propC11(c *Ctx) {
 			table = srFillTable(cs, "C10.resolve_new", args, 5)
 			c.Run("C11.resolve_perm", [][]byte{[]byte(ver), in.universe, srSetsStr(psets), srCSV(pauth), rej, table, base[2], base[3], in.evjson},
 				"C11.resolve_perm", "C11.prop.perm", desc+fmt.Sprintf(" rearrangement %d", p))
+
+			if p == 1 || p == 2 { // two rearrangements also through the end-to-end model
+				c.Run("C11.resolve_perm_e2e", [][]byte{[]byte(ver), in.universe, srSetsStr(psets), srCSV(pauth), rej, srEJSON(in.h.evs), base[2], base[3], in.evjson},
+					"C11.resolve_perm_e2e", "C11.prop.perm_e2e", desc+fmt.Sprintf(" rearrangement %d, end to end", p))
+			}
 
 			pall := srShuffled(rng, all)
 			if p == 0 {
